@@ -1292,18 +1292,63 @@ class Interp:
                 while main_task.stack:
                     await interp.force_leave(main_task, main_task.stack[-1])
 
-        async with Context() as root:
-            self.real[0] = root
-            await self.open_stream(0)
-            if case["comp"]:
-                class Comp(Component):
-                    async def start(self) -> None:
-                        await body()
+        # an UNRELATED root context lives next to the history: nothing may ever show up in it
+        done = anyio.Event()
+        probe_keys = sorted({(o["t"], o["name"]) for o in _walk_ops(case["ops"]) if o["op"] == "get" and o["name"] in VALID_NAMES})[:6]
 
-                await start_component(Comp, timeout=None)
-            else:
-                await body()
-        await self.drain(0)
+        async def bystander() -> None:
+            try:
+                async with Context() as other:
+                    def look(when: str) -> None:
+                        if self.diverged:
+                            return
+                        for tid in range(NTYPES):
+                            seen = other.get_resources(TYPES[tid])
+                            if seen:
+                                self.disc(["visibility"], "leak-into-unrelated-root",
+                                          f"{when}: an unrelated root context shows get_resources({TNAMES[tid]}) = "
+                                          f"{ {n: self.ser(v) for n, v in seen.items()} }")
+                                self.diverged = True
+                                return
+                        for (tid, name) in probe_keys:
+                            got = other.get_resource_nowait(TYPES[tid], name, optional=True)
+                            if got is not None:
+                                self.disc(["visibility"], "leak-into-unrelated-root",
+                                          f"{when}: lookup of ({TNAMES[tid]}, {name!r}) in an unrelated root context returned {self.ser(got)}")
+                                self.diverged = True
+                                return
+
+                    n = 0
+                    while not done.is_set() and n < 60:
+                        look("during the history")
+                        await anyio.lowlevel.checkpoint()
+                        n += 1
+                    await done.wait()
+                    look("after the history")
+            except BaseException as exc:
+                self.note_escape(exc)
+                raise
+
+        async def history() -> None:
+            try:
+                async with Context() as root:
+                    self.real[0] = root
+                    await self.open_stream(0)
+                    if case["comp"]:
+                        class Comp(Component):
+                            async def start(self) -> None:
+                                await body()
+
+                        await start_component(Comp, timeout=None)
+                    else:
+                        await body()
+                await self.drain(0)
+            finally:
+                done.set()
+
+        async with anyio.create_task_group() as tg:
+            tg.start_soon(bystander)
+            tg.start_soon(history)
         for sm in self.td_marks.get(0, []):
             if sm in self.failed_td:
                 self.disc(["atomicity"], "failed-add-teardown-ran",
@@ -1346,6 +1391,16 @@ class Interp:
         elif p == "C18":
             out.nontrivial = self.n_entered >= 2 and self.n_ok >= 1 and self.n_fail >= 1
         return out
+
+
+def _walk_ops(ops: list):
+    for o in ops:
+        yield o
+        if o["op"] == "par":
+            for br in o["branches"]:
+                yield from _walk_ops(br)
+        for t in o.get("td", []) or []:
+            yield t
 
 
 def _fmt_ev(ev: Any) -> str:
